@@ -68,6 +68,9 @@ func (p *watPrinter) Fprint(w io.Writer, m *ast.Module) error {
 	if err := p.printFuncs(); err != nil {
 		return err
 	}
+	if err := p.printStart(); err != nil {
+		return err
+	}
 	if err := p.printData(); err != nil {
 		return err
 	}
@@ -75,5 +78,13 @@ func (p *watPrinter) Fprint(w io.Writer, m *ast.Module) error {
 		return err
 	}
 
+	return nil
+}
+
+func (p *watPrinter) printStart() error {
+	if p.m.Start == "" {
+		return nil
+	}
+	fmt.Fprintf(p.w, "%s(start %s)\n", p.indent, watPrinter_identOrIndex(p.m.Start))
 	return nil
 }
